@@ -219,6 +219,8 @@ def jobs(tier):
         params = {'ops': ops}
         if tier == 'quick' and (len(ops) >= 4 or any(o[1] == 'add@' for o in ops)):
             params['horizon'] = '1/2'       # many coinciding deadlines: each one forks on the latencies
+            if any(o[1] == 'add@' and o[3] == '10ms' for o in ops):
+                params['horizon'] = '11/50'  # a 10 ms timer: every call adds a symbolic latency to all later queries
         out.append(Job('C12', 'c12:h_timers', params, W=40, wall=120 if tier == 'quick' else 900, max_paths=20000, validate=1))
     pats = [['a'], ['a', 'a'], ['a', 'b', 'a'], ['b', 'a', 'a', 'b'], ['a', 'a', 'a'], ['a', 'a', 'a', 'a', 'b']]
     if tier != 'quick':
